@@ -1933,7 +1933,15 @@ impl CompileState<'_> {
                     let fc_thir = self.lower_recall_call(fc, cmd)?;
                     thir::StmtKind::Recall(fc_thir)
                 }
-                (StmtKind::DebugAssert(e), _) => {
+                // Not in finish blocks or finish functions: nothing that can stop
+                // the command may run once facts and effects have been written.
+                (
+                    StmtKind::DebugAssert(e),
+                    StatementContext::Action(_)
+                    | StatementContext::CommandPolicy(_)
+                    | StatementContext::CommandRecall(_)
+                    | StatementContext::PureFunction(_),
+                ) => {
                     let e = self.lower_expression(e)?;
                     let _: VType = types::check_type(e.vtype.clone(), TypeKind::Bool.nowhere())
                         .map_err(|e| self.err(e))?;
